@@ -11,6 +11,7 @@ import (
 
 	"verifmc/core"
 	"verifmc/explore"
+	"verifmc/ref"
 )
 
 // ---- specification tables: every field the specifications define, with a non-default sample value ----
@@ -286,6 +287,7 @@ func init() {
 		ID: "C03",
 		Rule: "for each of the 30 object kinds of OpenAPI 3.0.3 and the 10 of Swagger 2.0 (field tables written from the specifications, one non-default sample value per field): every single field, every pair of fields (thorough: every triple for kinds of <=12 fields) and all fields together, " +
 			"x {no extension, an x- extension, an unknown non-x key} on the object x {JSON, YAML} input, hosted in a minimal document. D normal form: (1) canon(Marshal(Load(D))) == canon(D); (2) J1 = Marshal(Load(D)), Marshal(Load(J1)) == J1; (3) Marshal(Load(YAML(Load(D)))) == J1. " +
+			"Second family, documents with references: the skeleton document with one reference of each of the 10 kinds planted at every position through every loadable graph shape (internal, alias chains, files, fragments, cycles): Marshal(Load(D)) == D with every $ref spelled as written, and the output reloads to itself. " +
 			"Documents the library refuses to parse are skipped (counted). non-trivial = the object has at least one non-base field or an extension",
 		Assumptions: []string{
 			"field tables mc/checks/c03.go are the specifications' field lists; sample values are non-default so that the input is in normal form",
@@ -296,6 +298,10 @@ func init() {
 		MinOutcomes:   2,
 		ShrinkVectors: true,
 		Body: func(r *core.Run, x *explore.X) {
+			if x.Choose(2) == 1 {
+				c03References(r, x)
+				return
+			}
 			var c c03Case
 			c.v3 = x.Choose(2) == 0
 			kinds := spec3
@@ -413,6 +419,99 @@ func init() {
 			r.Outcome("round-trips")
 		},
 	})
+}
+
+// c03References is the second family: documents with references. The skeleton document with one reference of
+// every kind planted at every position through every loadable graph shape (mc/checks/forest.go) is loaded and
+// marshalled: the output must be the input document, every $ref spelled as written, and loading the output
+// (next to the same files) must marshal to the same bytes.
+func c03References(r *core.Run, x *explore.X) {
+	kind := explore.Pick(x, RefKinds)
+	var shapes []shapeDef
+	for _, s := range shapesFor(kind) {
+		switch s.name {
+		case "pure-ref-loop", "dangling-internal", "dangling-file", "dangling-fragment-in-file", "wrong-kind-internal", "wrong-kind-in-file":
+			continue
+		}
+		shapes = append(shapes, s)
+	}
+	shape := explore.Pick(x, shapes)
+	pos := explore.Pick(x, positionsOfKind(kind))
+	entry := "DataWithPath"
+	if !shape.ext && x.Bool() {
+		entry = "Data"
+	}
+	layout := "flat"
+	if shape.ext && r.Tier == "thorough" {
+		layout = explore.Pick(x, forestLayouts)
+	}
+	if !r.Own(x) {
+		return
+	}
+	f := BuildForest(kind, shape.name, pos, layout, "plain", entry)
+	sig := "references: " + f.Signature()
+	r.Case(sig, true)
+	detail := map[string]any{"forest": f.Describe()}
+	if r.WantSample(x) {
+		r.Sample(x, map[string]any{"case": sig})
+	}
+	var res LoadResult
+	var j1 []byte
+	var err error
+	r.Exec(0)
+	if !r.Guard(x, "load+marshal", detail, func() {
+		res = LoadForest(f, true, nil)
+		if res.Err == nil {
+			j1, err = json.Marshal(res.Doc)
+		}
+	}) {
+		r.Outcome("panic")
+		return
+	}
+	if res.Err != nil || err != nil {
+		r.Outcome("not-parsed(skipped)")
+		r.Count("documents_not_parsed", 1)
+		return
+	}
+	r.Validated(1)
+	root := f.Files[f.RootLoc]
+	if diffs := DiffJSON(mustJSON(j1), root, 5); len(diffs) > 0 {
+		d := cloneDetailAny(detail)
+		d["diff(output vs input)"] = diffs
+		r.Fail(x, "loses-or-invents:"+c03DiffClass(diffs[0]), sig, d)
+		r.Outcome("differs-from-input")
+		return
+	}
+	// the output, put in the place of the root file, loads and marshals to itself
+	g := *f
+	g.Files = ref.Files{}
+	for k, v := range f.Files {
+		g.Files[k] = v
+	}
+	g.Files[f.RootLoc] = mustJSON(j1)
+	var j2 []byte
+	if !r.Guard(x, "reload", detail, func() {
+		res = LoadForest(&g, true, nil)
+		err = res.Err
+		if err == nil {
+			j2, err = json.Marshal(res.Doc)
+		}
+	}) {
+		return
+	}
+	if err != nil {
+		d := cloneDetailAny(detail)
+		d["error"] = err.Error()
+		r.Fail(x, "own-output-does-not-reload", sig, d)
+		return
+	}
+	if CanonJSON(mustJSON(j2)) != CanonJSON(mustJSON(j1)) {
+		d := cloneDetailAny(detail)
+		d["first"], d["second"] = string(j1), string(j2)
+		r.Fail(x, "json-round-trip-not-idempotent", sig, d)
+		return
+	}
+	r.Outcome("round-trips")
 }
 
 func mustJSON(b []byte) any {
